@@ -42,9 +42,9 @@ theorem dict_roundtrip_val (k : Kind) (v : Val) (h : Valid k v) : deserDict k (s
     obtain ⟨hs, _⟩ := h
     cases s with
     | nil => exact absurd rfl hs
-    | cons c cs => simp [serDict, deserDict]
-  · simp [serDict, deserDict]
-  · simp [serDict, deserDict]
+    | cons c cs => simp [serDict, deserDict, blank, addValue]
+  · simp [serDict, deserDict, blank, addValue]
+  · simp [serDict, deserDict, blank, addValue]
   · rename_i l
     obtain ⟨h1, h2, _⟩ := h
     match l, h1, h2 with
@@ -52,8 +52,8 @@ theorem dict_roundtrip_val (k : Kind) (v : Val) (h : Valid k v) : deserDict k (s
       have : a ≠ [] := fun e => h2 (by rw [e])
       cases a with
       | nil => exact absurd rfl this
-      | cons c cs => simp [serDict, deserDict]
-    | a :: b :: rest, _, _ => simp [serDict, deserDict]
+      | cons c cs => simp [serDict, deserDict, blank, addValue]
+    | a :: b :: rest, _, _ => simp [serDict, deserDict, blank, addValue]
   · rename_i l
     obtain ⟨h1, h2, h3, _⟩ := h
     have hj := joinSp_ne_nil l h1 h2
@@ -61,7 +61,8 @@ theorem dict_roundtrip_val (k : Kind) (v : Val) (h : Valid k v) : deserDict k (s
     cases hjs : joinSp l with
     | nil => exact absurd hjs hj
     | cons c cs =>
-      simp only [deserDict]
+      simp only [deserDict, blank, addValue]
+      simp only [Bool.false_eq_true, if_false]
       rw [← hjs, splitSp_joinSp l h1 h3]
 
 theorem decimal_ne_nil (n : Nat) : decimal n ≠ [] := (LV.digits_spec n).2.1
